@@ -708,17 +708,14 @@ func (pm *ProtocolManager) handleMsg(p *peer) error {
 	}()
 
 	for {
-		// listen ReadMsg error
-		if len(errCh) != 0 {
-			err := <-errCh
+		select {
+		case err := <-errCh: // ReadMsg failed: the peer is gone
 			return err
-		}
-
-		msg := msgCache.Pop()
-		err := pm.work(msg, p)
-		if err != nil {
-			close(closeCh)
-			return err
+		case msg := <-msgCache.cache:
+			if err := pm.work(msg, p); err != nil {
+				close(closeCh)
+				return err
+			}
 		}
 	}
 
